@@ -24,12 +24,12 @@ func init() {
 }
 
 func runC07(c *core.Ctx) {
-	c.Rule("R1", "token written back = token read together with the value passed to f, read inside the retry iteration", 3)
+	c.Rule("R1", "token written back = token read together with the value passed to f, read inside the retry iteration", 5)
 	c.Rule("R2", "no unconditional write on the CAS path", 3)
 	c.Rule("R3", "success only on confirmed write; declined => return before any write", 6)
-	c.Rule("R4", "compare+write in one critical section with exact equality compare", 4)
+	c.Rule("R4", "compare+write in one critical section with exact equality compare", 6)
 	c.Rule("R5", "every write bumps the version token", 3)
-	c.Rule("R6", "wrappers forward f unchanged to exactly one inner CAS", 4)
+	c.Rule("R6", "wrappers forward f unchanged to exactly one inner CAS", 6)
 	c.Rule("R7", "in-memory stores return copies of stored entries", 1)
 	c07Consul(c)
 	c07Etcd(c)
